@@ -109,6 +109,7 @@ func runCase(c tcase, dist map[string]int) (lines []string, total int, inside bo
 		}
 	}
 	w := newWorldKind(c.cut, c.kind)
+	defer w.close()
 	w.r.distinct = dist
 	for n, cmd := range c.cmds {
 		oc := w.do(cmd)
@@ -366,7 +367,7 @@ func gen(a vh.Args) {
 	r := vh.NewRand(a.Seed)
 	nseq, ndisk := 60, 22
 	if a.Tier == "thorough" {
-		nseq, ndisk = 1500, 400
+		nseq, ndisk = 500, 150
 	}
 	if a.N > 0 {
 		nseq, ndisk = a.N, (a.N+3)/4
@@ -433,7 +434,7 @@ func gen(a vh.Args) {
 	}
 	nreg := 14
 	if a.Tier == "thorough" {
-		nreg = 300
+		nreg = 100
 	}
 	for len(rseqs) < nreg {
 		rseqs = append(rseqs, randomDiskSeq(r, 6))
@@ -462,10 +463,22 @@ func run(a vh.Args) {
 	st.Write(a.Out)
 }
 
+// quietLogger drops the library's log lines (the expected panics of Compact /
+// checkPartialSnapshotApplyOnDiskSM would otherwise bury a real error of the
+// harness on stderr); Panicf still panics, with the message.
+type quietLogger struct{}
+
+func (quietLogger) SetLevel(logger.LogLevel)         {}
+func (quietLogger) Debugf(string, ...interface{})   {}
+func (quietLogger) Infof(string, ...interface{})    {}
+func (quietLogger) Warningf(string, ...interface{}) {}
+func (quietLogger) Errorf(string, ...interface{})   {}
+func (quietLogger) Panicf(format string, args ...interface{}) {
+	panic(fmt.Sprintf(format, args...))
+}
+
 func main() {
-	for _, pkg := range []string{"dragonboat", "transport", "rsm", "server", "logdb", "raftpb", "fileutil", "utils", "config", "settings"} {
-		logger.GetLogger(pkg).SetLevel(logger.CRITICAL)
-	}
+	logger.SetLoggerFactory(func(string) logger.ILogger { return quietLogger{} })
 	a := vh.ParseArgs()
 	switch a.Mode {
 	case "gen":
